@@ -432,6 +432,7 @@ fn reduced_kind(c: &Con) -> bool {
         Con::LinLe(t, _) | Con::LinEq(t, _) | Con::LinNe(t, _) => t.len() >= 2 && t[0].var != t[1].var,
         Con::Cumulative { .. } => true,
         Con::PredClause(p) => p.len() == 2,
+        Con::ViewClause(p) => p.len() == 2,
         Con::BinLt(..) | Con::BinNe(..) => true,
         Con::Times(..) | Con::Div(..) | Con::Max(..) | Con::Element { .. } | Con::AllDiff(..) => {
             true
@@ -743,6 +744,75 @@ pub fn m6(level: u8) -> Vec<Model> {
                     k += 1;
                     if k % stride == 0 {
                         out.push(Model::new(vars.clone(), vec![cons[i].clone(), cons[j].clone()]));
+                    }
+                }
+            }
+        }
+    }
+    out
+}
+
+/// M7: clauses over predicates on views (`predicate![x.scaled(a).offset(b) <op> c]`): values inside
+/// and outside the image of the view, of both signs, with scales of both signs and offsets that
+/// are not multiples of the scale; unit clauses and clauses with a second predicate on another
+/// variable, alone or with a companion constraint.
+pub fn m7(level: u8) -> Vec<Model> {
+    let (x, y) = (0usize, 1usize);
+    let layouts: Vec<Vec<VarDecl>> = vec![
+        vec![VarDecl::interval(-3, 2), VarDecl::interval(0, 3)],
+        vec![VarDecl::from_values(&[-2, -1, 1, 3]), VarDecl::interval(0, 3)],
+    ];
+    let views = [
+        View::new(x, 2, 1),
+        View::new(x, -2, 1),
+        View::new(x, 3, -1),
+        View::new(x, -3, -2),
+        View::new(x, 2, 0),
+        View::new(x, -1, 0),
+        View::new(x, 1, 2),
+        View::new(x, -2, -3),
+    ];
+    let kinds = [PredKind::Eq, PredKind::Ne, PredKind::Ge, PredKind::Le];
+    let values: Vec<i32> = if level >= 1 { (-7..=7).collect() } else { vec![-5, -3, -2, -1, 0, 1, 3, 4] };
+    let seconds: Vec<Option<(View, PredKind, i32)>> = vec![
+        None,
+        Some((View::id(y), PredKind::Ge, 2)),
+        Some((View::new(y, -2, 1), PredKind::Eq, -3)),
+        Some((View::new(y, 2, -1), PredKind::Ne, 1)),
+    ];
+    let companions: Vec<Option<Con>> = vec![
+        None,
+        Some(Con::LinLe(vec![View::id(x), View::id(y)], 2)),
+        Some(Con::BinNe(View::id(x), View::new(y, 1, -2))),
+    ];
+    let mut out = vec![];
+    let mut k = 0usize;
+    for vars in &layouts {
+        for v in &views {
+            for kind in &kinds {
+                for c in &values {
+                    for (si, second) in seconds.iter().enumerate() {
+                        for (ci, comp) in companions.iter().enumerate() {
+                            k += 1;
+                            if level == 0 && (si + ci > 0) && k % 3 != 0 {
+                                continue;
+                            }
+                            let mut ps = vec![(*v, *kind, *c)];
+                            if let Some(s) = second {
+                                // first or second position
+                                if k % 2 == 0 {
+                                    ps.push(*s);
+                                } else {
+                                    ps.insert(0, *s);
+                                }
+                            }
+                            let mut cons = vec![];
+                            if let Some(cc) = comp {
+                                cons.push(cc.clone());
+                            }
+                            cons.push(Con::ViewClause(ps));
+                            out.push(Model::new(vars.clone(), cons));
+                        }
                     }
                 }
             }
